@@ -12,7 +12,7 @@ variable {M N R E : Type} [DecidableEq N] [MemoLike M N R] [LawfulMemo M N R]
 
 /-- `f` behaves like the function `f0` whenever it returns: it may raise where `f0` returns (injected faults,
     faults depending on the number of earlier invocations), never return something else. -/
-def Refines (f : Nat → N → List R → Except E R) (f0 : N → List R → Except E R) : Prop :=
+def Refines (f : List N → N → List R → Except E R) (f0 : N → List R → Except E R) : Prop :=
   ∀ k n args r, f k n args = .ok r → f0 n args = .ok r
 
 theorem refines_pure (f0 : N → List R → Except E R) : Refines (fun _ => f0) f0 := fun _ _ _ _ h => h
@@ -47,7 +47,7 @@ theorem lookAll_some (g : Graph N) (d : N → Bool) (f0 : N → List R → Excep
 
 /-- One loop iteration, whatever the callback does: the memo stays correct and closed, the stack stays well formed,
     `len(stack) + iterations − pushes` is constant. -/
-theorem step_inv (g : Graph N) (d : N → Bool) (f : Nat → N → List R → Except E R) (f0 : N → List R → Except E R)
+theorem step_inv (g : Graph N) (d : N → Bool) (f : List N → N → List R → Except E R) (f0 : N → List R → Except E R)
     (hf : Refines f f0) (s : WState M N) (hc : Closed g d f0 s.memo) (hs : StackOK d s.stack) :
     Closed g d f0 (step g d f s).state.memo ∧ StackOK d (step g d f s).state.stack ∧
     (step g d f s).state.stack.length + (step g d f s).state.iters + s.pushes
@@ -73,7 +73,7 @@ theorem step_inv (g : Graph N) (d : N → Bool) (f : Nat → N → List R → Ex
         | none => simp [Res.state]; exact ⟨hc, hs', by omega⟩
         | some args =>
           simp only []
-          cases hfn : f tr.length n args with
+          cases hfn : f tr n args with
           | error e => simp [Res.state]; exact ⟨hc, hs', by omega⟩
           | ok r =>
             simp [Res.state]
@@ -89,7 +89,7 @@ theorem step_inv (g : Graph N) (d : N → Bool) (f : Nat → N → List R → Ex
         | some r => simp [Res.state]; exact ⟨hc, hs', by omega⟩
         | none =>
           simp only []
-          cases hfn : f tr.length n [] with
+          cases hfn : f tr n [] with
           | error e => simp [Res.state]; exact ⟨hc, hs', by omega⟩
           | ok r =>
             simp [Res.state]
@@ -113,7 +113,7 @@ theorem closed_empty (g : Graph N) (d : N → Bool) (f0 : N → List R → Excep
   · intro n h; rw [LawfulMemo.look_empty] at h; cases h
 
 /-- Any number of loop iterations, whatever the callback does. -/
-theorem iter_inv (g : Graph N) (d : N → Bool) (f : Nat → N → List R → Except E R) (f0 : N → List R → Except E R)
+theorem iter_inv (g : Graph N) (d : N → Bool) (f : List N → N → List R → Except E R) (f0 : N → List R → Except E R)
     (hf : Refines f f0) (k : Nat) (s : WState M N) (hc : Closed g d f0 s.memo) (hs : StackOK d s.stack) :
     Closed g d f0 (iter g d f k s).state.memo ∧ StackOK d (iter g d f k s).state.stack ∧
     (iter g d f k s).state.stack.length + (iter g d f k s).state.iters + s.pushes
@@ -137,7 +137,7 @@ theorem iter_inv (g : Graph N) (d : N → Bool) (f : Nat → N → List R → Ex
       dsimp only
       exact ⟨i1, i2, by omega, by omega, by omega, by omega⟩
 
-theorem iter_pushes_mono (g : Graph N) (d : N → Bool) (f : Nat → N → List R → Except E R)
+theorem iter_pushes_mono (g : Graph N) (d : N → Bool) (f : List N → N → List R → Except E R)
     (f0 : N → List R → Except E R) (hf : Refines f f0) (a b : Nat) (s : WState M N)
     (hc : Closed g d f0 s.memo) (hs : StackOK d s.stack) :
     (iter g d f a s).state.pushes ≤ (iter g d f (a + b) s).state.pushes := by
@@ -197,12 +197,12 @@ def finish (inval : Bool) (n : N) : Res E M N → WOut E R × WState M N
       | some r => (.ok r, cleanup inval 0 s2)
       | none => (.raise .key, cleanup inval 0 s2)
 
-theorem walk_hit (g : Graph N) (d : N → Bool) (f : Nat → N → List R → Except E R) (inval : Bool) (fuel : Nat)
+theorem walk_hit (g : Graph N) (d : N → Bool) (f : List N → N → List R → Except E R) (inval : Bool) (fuel : Nat)
     (n : N) (s : WState M N) (r : R) (h : look s.memo n = some r) :
     walk g d f inval true fuel n s = (.ok r, s) := by
   unfold walk; simp [h]
 
-theorem walk_miss (g : Graph N) (d : N → Bool) (f : Nat → N → List R → Except E R) (inval shortcut : Bool)
+theorem walk_miss (g : Graph N) (d : N → Bool) (f : List N → N → List R → Except E R) (inval shortcut : Bool)
     (fuel : Nat) (n : N) (s : WState M N) (hs : s.stack = [])
     (h : (if shortcut then look s.memo n else none) = none) :
     walk g d f inval shortcut fuel n s = finish inval n (iter g d f fuel (root n s)) := by
@@ -245,7 +245,7 @@ theorem stackOK_root (d : N → Bool) (n : N) : StackOK d [(false, n)] := by
 /-- **C15** (`walk_fail_restores`).  Whatever the callbacks do -- return, raise, raise at the k-th invocation --
     and whatever the outcome of the call, `walk` leaves the walker idle (empty work stack) with a memo that is
     correct and closed under children. -/
-theorem walk_post (g : Graph N) (d : N → Bool) (f : Nat → N → List R → Except E R) (f0 : N → List R → Except E R)
+theorem walk_post (g : Graph N) (d : N → Bool) (f : List N → N → List R → Except E R) (f0 : N → List R → Except E R)
     (hf : Refines f f0) (inval shortcut : Bool) (fuel : Nat) (n : N) (s : WState M N)
     (hc : Closed g d f0 s.memo) (hs : s.stack = []) :
     (walk g d f inval shortcut fuel n s).2.stack = [] ∧
@@ -260,7 +260,7 @@ theorem walk_post (g : Graph N) (d : N → Bool) (f : Nat → N → List R → E
     exact (iter_inv g d f f0 hf fuel (root n s) hc (stackOK_root d n)).1
 
 /-- a value returned by `walk` is the specified one, whatever faults are injected elsewhere -/
-theorem walk_ok_sound (g : Graph N) (d : N → Bool) (f : Nat → N → List R → Except E R)
+theorem walk_ok_sound (g : Graph N) (d : N → Bool) (f : List N → N → List R → Except E R)
     (f0 : N → List R → Except E R) (hf : Refines f f0) (inval shortcut : Bool) (fuel : Nat) (n : N)
     (s : WState M N) (hc : Closed g d f0 s.memo) (hs : s.stack = []) (r : R)
     (hr : (walk g d f inval shortcut fuel n s).1 = .ok r) : spec g d f0 n = .ok r := by
